@@ -164,7 +164,8 @@ Definition partition (c : cfg) (lines : list str) : result (list (str * list str
 (** *** Routing *)
 Inductive log :=
 | LUnparsable (line : str)      (* logger chartparse.track *)
-| LUnhandled (tag : str).       (* logger chartparse.chart *)
+| LUnhandled (tag : str)        (* logger chartparse.chart *)
+| LOther (msg : str).           (* any other record: never produced by the model *)
 
 Record chart := {
   c_meta : metadata;
